@@ -110,6 +110,26 @@ def strip_comments(txt: str) -> str:
     return "\n".join(l.split("--")[0] for l in txt.splitlines())
 
 
+def import_closure(modules: list[str]) -> list[Path]:
+    """files of the lake project that the given modules import, transitively (the property's own proof
+    and model files: the forbidden-token grep is scoped to them, other properties' work in progress is
+    not this property's business)"""
+    seen, todo = {}, list(modules)
+    while todo:
+        m = todo.pop()
+        if m in seen or not m.startswith("BlueskyVerif"):
+            continue
+        path = LEAN / (m.replace(".", "/") + ".lean")
+        if not path.exists():
+            continue
+        seen[m] = path
+        for line in path.read_text().splitlines():
+            mm = re.match(r"\s*(?:public\s+)?import\s+(\S+)", line)
+            if mm:
+                todo.append(mm.group(1))
+    return sorted(seen.values())
+
+
 def audit(prop_id: str, modules: list[str]) -> dict:
     """#print axioms on every theorem of the Props modules; forbidden-token grep over lean/."""
     thms = [t for m in modules for t in theorem_names(m)]
@@ -130,7 +150,7 @@ def audit(prop_id: str, modules: list[str]) -> dict:
         else:
             res[t] = {"axioms": None, "ok": False}
     bad_tokens = []
-    for path in sorted((LEAN / "BlueskyVerif").rglob("*.lean")):
+    for path in import_closure(modules):
         for i, line in enumerate(strip_comments(path.read_text()).splitlines(), 1):
             if FORBIDDEN.search(line):
                 bad_tokens.append(f"{path.relative_to(LEAN)}:{i}: {line.strip()[:100]}")
